@@ -43,6 +43,16 @@ def any_state(self: Ref['mqtt.client.pubsubs.MQTTProtocol']) -> bool:
                         and is_none(self._pingReq.timer) and is_none(self._pingReq.alarm)))
 
 
+@spec
+def pub_args_bad(topic: Str, message: Any, qos: int) -> bool:
+    """what publish() must refuse up front (C20): QoS outside 0..2, payload neither str nor bytearray, topic (or str
+    payload) not encodable or over-long"""
+    return (not (0 <= qos and qos <= 2) or not (is_str(message) or is_bytes(message))
+            or not encodable(topic) or len(utf8(topic)) > 65535
+            or (is_str(message) and not encodable(message))
+            or len(pub_body(qos, topic, 0, utf8(message) if is_str(message) else as_bytes(message))) > 268435455)
+
+
 @contract('mqtt.client.pubsubs.MQTTProtocol.publish', props=['C14', 'C05', 'C10', 'C20', 'C18'], classes=PROFILES)
 def _(self: Ref['mqtt.client.pubsubs.MQTTProtocol'], topic: Str, message: Any, qos: int, retain: bool) -> Ref['Deferred']:
     requires(is_obj(self.addr))
@@ -57,6 +67,22 @@ def _(self: Ref['mqtt.client.pubsubs.MQTTProtocol'], topic: Str, message: Any, q
                     and len(W(self)) == old(len(W(self)))))
     ensures(implies(old(can_publish(self)), not (result.d_val == exc('MQTTStateError'))
                     or not result.d_fired or result.d_ok))
+    # honoured where allowed, in terms of the ARGUMENTS: bad ones fail and leave no trace, good ones are queued once as
+    # the PUBLISH packet the specification prescribes for them and complete as their QoS demands
+    can = can_publish(self)
+    bad = pub_args_bad(topic, message, qos)
+    t0 = dq_tail(Q(self))
+    ensures(implies(can and bad, result.d_fired and not result.d_ok and is_exc(result.d_val) and out(self) == old(out(self))
+                    and dq_tail(Q(self)) == t0 and dq_head(Q(self)) == old(dq_head(Q(self)))))
+    ensures(implies(can and not bad, dq_tail(Q(self)) == t0 + 1))
+    ensures(implies(can and not bad,
+                    dq_at(Q(self), t0).g_base == sPUBLISH(False, qos, retain, topic,
+                                                           as_int(dq_at(Q(self), t0).msgId) if qos > 0 else 0,
+                                                           utf8(message) if is_str(message) else as_bytes(message))))
+    ensures(implies(can and not bad and qos == 0, result.d_fired and result.d_ok and is_none(result.d_val)))
+    ensures(implies(can and not bad and qos > 0, not result.d_fired and result.msgId == dq_at(Q(self), t0).msgId
+                    and is_int(result.msgId) and 1 <= result.msgId and result.msgId <= 65535))
+    ensures(implies(can and not bad, dq_len(Q(self)) == 0 or (is_int(dq_at(Q(self), dq_head(Q(self))).msgId) and len(W(self)) >= self._window)))
 
 
 @contract('mqtt.client.pubsubs.MQTTProtocol.subscribe', props=['C14', 'C07', 'C20', 'C18'], classes=PROFILES)
@@ -70,6 +96,18 @@ def _(self: Ref['mqtt.client.pubsubs.MQTTProtocol'], topics: Any, qos: int) -> R
     ensures(implies(not old(can_subscribe(self)), refused(result) and out(self) == old(out(self))
                     and forall(lambda k: contains(S(self), k) == old(contains(S(self), k)))))
     ensures(implies(old(can_subscribe(self)), not (is_bool(result.d_fired) and result.d_fired and result.d_val == exc('MQTTStateError'))))
+    # honoured where allowed, in terms of the ARGUMENTS: the three accepted shapes name the same list of (topic, QoS)
+    can = can_subscribe(self)
+    shape = is_str(topics) or is_pair_si(topics) or is_list_si(topics)
+    ts = (lsi(topics, qos) if is_str(topics) else
+          (lsi(as_pair_si(topics)[0], as_pair_si(topics)[1]) if is_pair_si(topics) else as_list_si(topics)))
+    full = len(S(self)) >= self._window
+    bad = full or not shape or topics_bad(ts)
+    ensures(implies(can and bad, result.d_fired and not result.d_ok and out(self) == old(out(self))
+                    and forall(lambda k: contains(S(self), k) == old(contains(S(self), k)))))
+    ensures(implies(can and not bad, out(self) == old(out(self)) + lb(sSUBSCRIBE(self.factory.id, ts))))
+    ensures(implies(can and not bad, not result.d_fired and result.msgId == self.factory.id and contains(S(self), self.factory.id)
+                    and S(self)[self.factory.id].deferred == result))
 
 
 @contract('mqtt.client.pubsubs.MQTTProtocol.unsubscribe', props=['C14', 'C07', 'C20', 'C18'], classes=PROFILES)
@@ -83,6 +121,16 @@ def _(self: Ref['mqtt.client.pubsubs.MQTTProtocol'], topics: Any) -> Ref['Deferr
     ensures(implies(not old(can_subscribe(self)), refused(result) and out(self) == old(out(self))
                     and forall(lambda k: contains(U(self), k) == old(contains(U(self), k)))))
     ensures(implies(old(can_subscribe(self)), not (is_bool(result.d_fired) and result.d_fired and result.d_val == exc('MQTTStateError'))))
+    can = can_subscribe(self)
+    shape = is_str(topics) or is_list_str(topics)
+    ts = lstr(topics) if is_str(topics) else as_list_str(topics)
+    full = len(U(self)) >= self._window
+    bad = full or not shape or strs_bad(ts)
+    ensures(implies(can and bad, result.d_fired and not result.d_ok and out(self) == old(out(self))
+                    and forall(lambda k: contains(U(self), k) == old(contains(U(self), k)))))
+    ensures(implies(can and not bad, out(self) == old(out(self)) + lb(sUNSUBSCRIBE(self.factory.id, ts))))
+    ensures(implies(can and not bad, not result.d_fired and result.msgId == self.factory.id and contains(U(self), self.factory.id)
+                    and U(self)[self.factory.id].deferred == result))
 
 
 @contract('mqtt.client.base.MQTTBaseProtocol.disconnect', props=['C14', 'C18'], classes=PROFILES)
